@@ -24,7 +24,7 @@ B0 = 150000      # steps; >= 25x what any small-input operation used on the repa
 B1 = 8000        # steps per input character (measured maximum 320)
 WALL_BACKSTOP_S = 60
 MAX_HANGS_PER_WORKER = 6
-RULE = ("(a) every string over a 26-token docstring alphabet up to length 3 (quick) / 4 (thorough) plus seeded longer "
+RULE = ("(a) every string over a 27-token docstring alphabet up to length 3 (quick) / 4 (thorough) plus seeded longer "
         "ones, each fed to the docstring parser (two option sets), the three docstring round-trips and embedded in a "
         "function and a class for the source parsers; (b) seeded interface specs whose prose is drawn from a pool of "
         "empty / whitespace-only / leading-blank / header-without-body / back-tick strings through all nine emitters "
@@ -42,7 +42,10 @@ STUBBED = ["time: the clock is the count of cdd line events (sys.settrace), neve
 
 TOKENS = (":param x:", ":type x:", ":return:", ":rtype:", "Args:", "Returns:", "Parameters\n----------",
           "Returns\n-------", "x", "int", "`", "```", ":", "\n", "    ", " ", "(", ")", "Defaults to 5", ".",
-          "\t", " or ", " of ", ",", '"', "'")
+          "\t", " or ", " of ", ",", '"', "'", "-" * 32)
+# tokens whose length-3 combinations get the full operation set in the exhaustive part (added after the first version
+# of the alphabet: a rule much longer than the header above it)
+HEAVY = ("-" * 32,)
 WHITESPACE_VARIANTS = ("\t", "\r", "\x0b", "\x0c", "\u00a0", "  ", "\n", " \n", "\t\t")
 CORE = (":param x:", ":type x:", ":return:", "Args:", "Parameters\n----------", "x", "```", ":", "\n", "    ", " ", "`")
 PROSE = ("", " ", "   ", "\n", "\t", "   \nfoo", "\n\nfoo", " \n \n bar", "foo\n\n   \nbar", "  leading", "trailing   ",
@@ -61,7 +64,7 @@ STYLES = ("rest", "google", "numpydoc")
 def probes():
     return ["parse_ops", "emit_ops", "roundtrip_ops", "source_parse_ops", "truncated_inputs", "doctrans_histories",
             "doctrans_second_pass", "whitespace_first_line_doc", "ops_over_10k_steps", "mutated_inputs",
-            "posonly_signature"]
+            "posonly_signature", "expression_defaults"]
 
 
 class _Wall(BaseException):
@@ -118,6 +121,11 @@ def text_ops(text):
                "source": 'def f(x, y=1):\n    """%s"""\n    return x\n' % body}
         yield {"kind": "parse_source", "parser": "class_",
                "source": 'class K(object):\n    """%s"""\n\n    x: int = 1\n' % body}
+        # parsed from source, then emitted with a docstring (the emitters split the parsed docstring again)
+        yield {"kind": "parse_emit", "parser": "function", "emitter": "docstring", "opts": {"docstring_format": "numpydoc"},
+               "source": 'def f(x, y=1):\n    """%s"""\n    return x\n' % body}
+        yield {"kind": "parse_emit", "parser": "class_", "emitter": "function", "opts": {"docstring_format": "google"},
+               "source": 'class K(object):\n    """%s"""\n\n    x: int = 1\n' % body}
 
 
 def spec_ops(rng):
@@ -142,6 +150,28 @@ def spec_ops(rng):
             opts["emit_default_doc"] = rng.choice((True, False))
             opts["emit_original_whitespace"] = rng.choice((True, False))
         yield {"kind": "emit", "emitter": emitter, "spec": spec, "opts": opts}
+
+
+# defaults that are expressions, not literals: data to a transpiler, however large their value or deep their tree
+EXPR_DEFAULTS = ("9 ** 9 ** 9", "2 ** 2 ** 2 ** 2 ** 2 ** 2", " + ".join(["1"] * 40), " * ".join(["2"] * 64),
+                 "(" * 40 + "1" + ")" * 40, "-" * 30 + "1", "'a' " + "+ 'b' " * 40, "[" * 30 + "]" * 30,
+                 "not " * 30 + "True", "1 if 1 else " * 20 + "0", "10 ** 100000", "60 * 60", "(1, 2) * 3")
+
+
+def expr_default_ops(rng):
+    e = rng.choice(EXPR_DEFAULTS)
+    fn = ('def f(a=%s, b=1):\n    """\n    Do it\n\n    :param a: the a\n    :param b: the b\n    """\n    return a\n'
+          % e)
+    cls = 'class K(object):\n    """\n    K thing\n\n    :cvar a: the a\n    """\n\n    a: int = %s\n' % e
+    ap = ('def set_cli_args(argument_parser):\n    """\n    Set CLI arguments\n\n    :param argument_parser: parser\n'
+          '    :type argument_parser: ```ArgumentParser```\n\n    :return: parser\n    :rtype: ```ArgumentParser```\n    """\n'
+          '    argument_parser.description = "K thing"\n    argument_parser.add_argument("--a", type=int, default=%s, '
+          'help="the a")\n    return argument_parser\n' % e)
+    for parser, src in (("function", fn), ("class_", cls), ("argparse_function", ap)):
+        yield {"kind": "parse_source", "parser": parser, "source": src}
+        for em in rng.sample(("function", "class_", "argparse_function", "docstring", "sqlalchemy", "json_schema",
+                              "pydantic"), 3):
+            yield {"kind": "parse_emit", "parser": parser, "source": src, "emitter": em, "opts": {}}
 
 
 RICH_DOCS = ("the %s value, an int or a str", "List of int or str for %s", "one of 'a', 'b' or 'c' (%s)",
@@ -199,6 +229,8 @@ def _describe(op):
                                                    json.dumps(op.get("opts")))
     if op["kind"] == "parse_source":
         return "parse %s(%r)" % (op["parser"], op["source"][:80])
+    if op["kind"] == "parse_emit":
+        return "parse %s then emit %s(%r)" % (op["parser"], op["emitter"], op["source"][:80])
     if op["kind"] == "doctrans_history":
         return "doctrans history %s on a %d-char module" % (op["cmds"], len(op["source"]))
     return op["kind"]
@@ -360,7 +392,8 @@ def work(task):
                 for combo in itertools.product(toks, repeat=L):
                     if i % task["stride"] == task["offset"]:
                         text = "".join(combo)
-                        for op in (text_ops(text) if L <= 2 else itertools.islice(text_ops(text), 3 if L == 3 else 1)):
+                        full = L <= 2 or (L == 3 and any(t in HEAVY for t in combo))
+                        for op in (text_ops(text) if full else itertools.islice(text_ops(text), 3 if L == 3 else 1)):
                             handle(op)
                         st["runs"] += 1
                     i += 1
@@ -392,6 +425,10 @@ def work(task):
                     src = gen.render_function(spec, style=style)
                     cut = rng.randint(0, len(src))
                     handle({"kind": "doctrans_history", "source": src[:cut], "cmds": [[rng.choice(STYLES), True, False]]})
+                elif which == 3 and r % 16 == 7:   # (f) expression defaults in sources
+                    st["probes"]["expression_defaults"] = st["probes"].get("expression_defaults", 0) + 1
+                    for op in expr_default_ops(rng):
+                        handle(op)
                 elif which == 3 and r % 8 == 3:   # (e) whitespace / character mutations of well-formed docstrings
                     text, spec, style = wellformed_docstring(rng, rich=True)
                     for _ in range(6):
